@@ -958,7 +958,7 @@ def model_round4(ctx, rng, nprng, quick):
             m = rng.choice([1, 2, 3, 5, 8, 20])
             T = m * bins
         else:
-            T = rng.choice([1, 2, 3, 5, 7, 11, 13, 26, 50])
+            T = rng.choice([1, 2, 3, 5, 7, 11, 13, 26, 50, rng.randrange(1, 60)])
         if kind == "ties":
             base = nprng.randint(0, max(2, T // 2), size=T).astype(float)
         else:
@@ -985,6 +985,17 @@ def model_round4(ctx, rng, nprng, quick):
                          f"tie-free row of T = {T} = {T // bins}*{bins} samples: the symbols 0..bins-1 are not taken "
                          f"by T/bins samples each",
                          {"row": lst(row), "bins": bins, "occupancy(-1..bins)": occ})
+        elif tiefree and T > 0:
+            # round 5, model-free closed form for every T (theorem qbin_occupancy_any_length):
+            # step = ceil(T/bins) samples in every full bin, the rest in the last one, none beyond
+            step = -(-T // bins)
+            exp = [0] + [min(step, max(0, T - step * a)) for a in range(bins + 1)]
+            ctx.count("oracle:quantile_occupancy_ragged")
+            if occ != exp:
+                ctx.fail({"kind": "kernel", "kernel": "_quantile_bin_array", "check": "ragged_occupancy"},
+                         f"tie-free row of T = {T} samples, bins = {bins}: the symbols are not taken by "
+                         f"min(step, T - step*a) samples (step = ceil(T/bins) = {step})",
+                         {"row": lst(row), "bins": bins, "occupancy(-1..bins)": occ, "expected": exp})
     # public method: the marginal entropy of an equally occupied partition is log(bins)
     for c in range(6 if quick else 40):
         bins = rng.choice([2, 3, 4, 6, 8])
